@@ -278,6 +278,12 @@ def stepL1 (st : DState) (toks : List String) : Option (DState × String) :=
     match st.dir.nodes.batchInsert c m a els with
     | .ok (ns, a') => some ({ st with dir := { st.dir with nodes := ns, azks := some a' } }, s!"ok {a'.latestEpoch} {a'.numNodes}")
     | .error _ => some (st, "err")
+  | ["perm.group", _] => some (st, "ok")
+  | ["perm.end"] => some (st, "ok")
+  | ["azks.setepoch", e] => do
+    let e ← e.toNat?
+    let a ← st.dir.azks
+    some ({ st with dir := { st.dir with azks := some { a with latestEpoch := e } } }, "ok")
   | ["azks.root"] => some (st, showTErr Show.dig (curRoot st))
   | ["azks.mem", l] => do
     let l ← parseLabel? l
